@@ -33,3 +33,17 @@ class T:
     class In:
         def im(self, a):
             return a
+
+
+def h1(a, b=None):
+    """h1 and h2 have IDENTICAL signatures (names, kinds, defaults): with the same traced types their stubs are equal"""
+    return a
+
+
+def h2(a, b=None):
+    return a
+
+
+def ell(ellipsis_opts, with_ellipsis=None):
+    """parameter names containing the word Ellipsis (their generated TypedDict classes are named after them)"""
+    return ellipsis_opts
